@@ -17,7 +17,7 @@ hprop.install(globals(), hprop.HistoryProperty(
           "driver-issued instruction must name an entity that grants the vehicle. non-trivial = >=1 rejected cross-fleet instruction AND >=1 "
           "built-in pairing; distinct = sha1(world, op log)"),
     assumptions=hprop.COMMON_ASSUMPTIONS + ["requests carry a fleet id iff a fleets file exists (the loader drops the others)"],
-    quick=(16, 60, 35), thorough=(16, 1500, 60), probes=True,
+    quick=(16, 60, 35), thorough=(16, 800, 60), probes=True,
     instr_bias={"inject": True, "reoffer": True, "tclasses": [0, 4, 4, 4, 4, 5, 1, 2]},
 ))
 FLOORS = {"quick": {"flag:cross_fleet_instruction_rejected": 50, "builtin_pairings": 500}, "thorough": {"builtin_pairings": 10000}}
